@@ -216,6 +216,8 @@ namespace bloch::cli {
                     }
                 } else if (arg.rfind(kFlagEchoPrefix, 0) == 0) {
                     echoOpt = arg.substr(kFlagEchoPrefix.size());
+                    if (echoOpt == "auto")
+                        echoOpt.clear();  // documented default: same as not passing the flag
                 } else {
                     file = arg;
                 }
